@@ -141,6 +141,11 @@ func c06HTTPRun(r *ev.Result, kinds []string, order []int) (nHalves int) {
 		case "io":
 			c.Send("POST /io HTTP/1.1\r\nHost: x\r\nTransfer-Encoding: chunked\r\n\r\n")
 			want = 2
+		case "io/k":
+			/* Anything below /io/ is /io: here it ends like the ID the
+			unidirectional clients use. */
+			c.Send("POST /io/k HTTP/1.1\r\nHost: x\r\nTransfer-Encoding: chunked\r\n\r\n")
+			want = 2
 		case "i":
 			c.Send(hworld.Get("/i/k", w.Addr))
 		case "o":
@@ -199,7 +204,8 @@ func c06HTTPRun(r *ev.Result, kinds []string, order []int) (nHalves int) {
 	g.mu.Unlock()
 	ci, hasIn := att["input"]
 	co, hasOut := att["output"]
-	if hasIn && hasOut && ci != co && ("io" == kinds[ci] || "io" == kinds[co]) {
+	isIO := func(k string) bool { return strings.HasPrefix(k, "io") }
+	if hasIn && hasOut && ci != co && (isIO(kinds[ci]) || isIO(kinds[co])) {
 		v("cross-paired-halves", fmt.Sprintf("the shell is made of the input of client %d (%s) and the output of client %d (%s)", ci, kinds[ci], co, kinds[co]))
 	}
 	/* And according to the traffic. */
@@ -241,7 +247,7 @@ func c06HTTPRun(r *ev.Result, kinds []string, order []int) (nHalves int) {
 
 // c06HTTP explores every admission order for a few client sets.
 func c06HTTP(r *ev.Result, quick bool) {
-	sets := [][]string{{"io", "io"}, {"io", "i"}, {"o", "io"}, {"io", "io", "i"}}
+	sets := [][]string{{"io", "io"}, {"io", "i"}, {"o", "io"}, {"io", "io", "i"}, {"io/k", "o"}, {"i", "io/k"}}
 	if !quick {
 		sets = append(sets, []string{"io", "io", "io"}, []string{"io", "o", "i", "io"})
 	}
